@@ -9,10 +9,11 @@ from uuid import UUID
 
 from pydiverse.transform._internal import errors
 from pydiverse.transform._internal.backend.table_impl import TableImpl
+from pydiverse.transform._internal.ops import ops
 from pydiverse.transform._internal.ops.op import Ftype
 from pydiverse.transform._internal.tree import types, verbs
 from pydiverse.transform._internal.tree.ast import AstNode
-from pydiverse.transform._internal.tree.col_expr import Col, ColFn
+from pydiverse.transform._internal.tree.col_expr import CaseExpr, Cast, Col, ColExpr, ColFn, LiteralCol
 
 
 @dataclasses.dataclass(slots=True)
@@ -293,9 +294,12 @@ class Cache:
 
             # (also hidden columns: they stay usable after the join)
             if (node.how == "full" or (node.child not in self.derived_from and node.how == "left")) and any(
-                types.is_const(col.dtype()) for col in self.cols.values()
+                types.is_const(col.dtype()) or not is_null_on_null_row(col) for col in self.cols.values()
             ):
-                return "left / full join with a table containing a constant column"
+                return (
+                    "left / full join with a table containing a constant column or a column that is not null for a "
+                    "row of nulls (e.g. `fill_null`, `coalesce`, `is_null` or a case expression with a default value)"
+                )
 
             # (also hidden columns: they stay usable after the join)
             if any(col.ftype() == Ftype.WINDOW for col in self.cols.values()):
@@ -322,6 +326,54 @@ class Cache:
 
     def selected_cols(self) -> list[Col]:
         return [self.cols[uid] for uid in self.uuid_to_name.keys()]
+
+
+# Operators whose result is null only if *all* of their arguments are null.
+_NULL_IF_ALL_NULL = (
+    ops.coalesce,
+    ops.fill_null,
+    ops.horizontal_max,
+    ops.horizontal_min,
+    ops.horizontal_sum,
+    ops.horizontal_any,
+    ops.horizontal_all,
+    ops.bool_and,
+    ops.bool_or,
+)
+# Operators whose result is never null (on some backend).
+_NEVER_NULL = (ops.is_null, ops.is_not_null, ops.is_nan, ops.is_not_nan, ops.is_inf, ops.is_not_inf)
+
+
+def is_null_on_null_row(expr: ColExpr) -> bool:
+    """
+    Whether `expr` is null in a row in which all columns of its table are null. SQL
+    evaluates the expressions of a table after an outer join, i.e. also on the rows
+    that were padded with nulls; an expression for which this function returns False
+    would not be null there.
+    """
+
+    if isinstance(expr, Col):
+        if isinstance(expr._ast, verbs.Mutate) and expr._uuid in expr._ast.uuids:
+            return is_null_on_null_row(expr._ast.values[expr._ast.uuids.index(expr._uuid)])
+        return True
+    if isinstance(expr, LiteralCol):
+        return expr.val is None
+    if isinstance(expr, Cast):
+        return is_null_on_null_row(expr.val)
+    if isinstance(expr, CaseExpr):
+        # no condition is true on such a row, so the result is the default value
+        return all(is_null_on_null_row(cond) for cond, _ in expr.cases) and (
+            expr.default_val is None or is_null_on_null_row(expr.default_val)
+        )
+    if isinstance(expr, ColFn):
+        if expr.op.ftype != Ftype.ELEMENT_WISE:
+            return True  # window / aggregate functions have their own rules
+        if expr.op in _NEVER_NULL:
+            return False
+        if expr.op in _NULL_IF_ALL_NULL:
+            return all(is_null_on_null_row(arg) for arg in expr.args)
+        return any(is_null_on_null_row(arg) for arg in expr.args)
+    return True
 
 
 def transfer_col_references(table, ref_source):
